@@ -190,9 +190,16 @@ def compile_shards(shards, bdir, per_timeout=300):
 
 # ------------------------------------------------------------------ main
 def load_known(pid):
-    p = os.path.join(VERIF, "known_findings.json")
-    if not os.path.exists(p): return []
-    return [e for e in json.load(open(p)) if e.get("property") == pid]
+    out = []
+    for p in [os.path.join(VERIF, "known_findings.json")] + sorted(glob.glob(os.path.join(VERIF, "known_findings.d", "*.json"))):
+        if os.path.exists(p):
+            out += [e for e in json.load(open(p)) if e.get("property") == pid]
+    # an entry of known_findings.d with the same id refines (adds the witness case to) the entry of known_findings.json
+    byid = {}
+    for e in out:
+        if e["id"] in byid: byid[e["id"]].update({k: v for k, v in e.items() if k not in byid[e["id"]] or k == "case"})
+        else: byid[e["id"]] = dict(e)
+    return list(byid.values())
 
 def write_replay(pid, rec):
     d = os.path.join(VERIF, "replays", pid); os.makedirs(d, exist_ok=True)
